@@ -1375,6 +1375,20 @@ def b_struct_unpack(interp, args, kwargs):
     return struct_unpack(interp, args[0], args[1])
 
 
+def b_struct_unpack_from(interp, args, kwargs):
+    fmt, data = args[0], args[1]
+    off = args[2] if len(args) > 2 else kwargs.get('offset', K(0))
+    if not isinstance(fmt, K):
+        return NotImplemented
+    try:
+        size = _struct.calcsize(fmt.v)
+    except _struct.error as e:
+        raise py_exc(interp, e)
+    end = norm_int(T('binop', '+', interp.termify(off), K(size)))
+    piece = slice_(interp, data, off, end, K(None))
+    return struct_unpack(interp, fmt, piece)
+
+
 def b_struct_calcsize(interp, args, kwargs):
     if isinstance(args[0], K):
         try:
@@ -1502,6 +1516,7 @@ BUILTINS = {
     'getattr': b_getattr, 'hasattr': b_hasattr, 'type': b_type,
     'iter': b_iter, 'print': b_print, 'next': b_next,
     'struct.unpack': b_struct_unpack, 'struct.calcsize': b_struct_calcsize,
+    'struct.unpack_from': b_struct_unpack_from,
     're.compile': b_re_compile,
     'bin': b_pure('bin'), 'hex': b_pure('hex'), 'ord': b_pure('ord'),
     'chr': b_pure('chr'), 'abs': b_pure('abs'), 'repr': b_pure('repr'),
